@@ -42,7 +42,8 @@ STUBBED = ["socket/select/time/pinger (simkit)", "controller peer (scripted)",
            "data-plane hosts (frames injected by the harness)"]
 EXPECT_PROBES = ["fm_cmd_0_ok", "fm_cmd_1_ok", "fm_cmd_2_ok", "fm_cmd_3_ok",
                  "fm_cmd_4_ok", "fm_cmd_0_error", "lookup_hit", "lookup_miss",
-                 "advance", "removed_idle", "removed_hard", "removed_delete"]
+                 "advance", "removed_idle", "removed_hard", "removed_delete",
+                 "control_reconnected"]
 
 
 def gen_plan(seed, tier):
@@ -69,7 +70,11 @@ def gen_plan(seed, tier):
   steps = []
   for _ in range(n):
     k = r.wpick([(9, "flow_mod"), (6, "frame"), (5, "advance"),
-                 (1, "packet_out")])
+                 (1, "packet_out"), (0.6, "reconnect")])
+    if k == "reconnect":
+      # the control connection is replaced; the switch and its table stay
+      steps.append({"op": "reconnect", "how": r.pick(["close", "reset"])})
+      continue
     if k == "flow_mod":
       m, exact = r.pick(alphabet)
       if r.chance(0.25):
